@@ -1,5 +1,8 @@
-(* C32: the raw-string parser of model/HttpRange.v (the model of parseRange on the
-   header text) agrees with the structured parser on every printed header. *)
+(* C32: the raw-string parser of model/HttpRange.v (the model of parseRange on the header
+   text) agrees with the structured parser on EVERY spelling of a list of specs: optional
+   white space (all unicode.IsSpace runes) around the elements and around '-', an optional
+   '+' and leading zeros before a number, empty elements; numbers of any size (those above
+   int64 max make the header invalid).  Then the theorems of C32 on the header text. *)
 From Coq Require Import List NArith ZArith Bool String Ascii Lia.
 From Coq Require Import ZifyBool ZifyN ZifyNat.
 From SW Require Import model.HttpRange proof.HttpRangeProofs.
@@ -8,13 +11,24 @@ Local Open Scope Z_scope.
 Ltac Zify.zify_post_hook ::= Z.div_mod_to_equations.
 
 (* ------------------------------------------------------------------ *)
+(* strings *)
+Lemma app_nil_r_s : forall s, append s EmptyString = s.
+Proof. induction s as [|c s IH]; simpl; [reflexivity|rewrite IH; reflexivity]. Qed.
+Lemma app_assoc_s : forall a b c, append (append a b) c = append a (append b c).
+Proof. induction a as [|x a IH]; intros b c; simpl; [reflexivity|rewrite IH; reflexivity]. Qed.
+
 (* character classes *)
 Fixpoint sall (p : ascii -> bool) (s : string) : bool :=
   match s with EmptyString => true | String c s' => p c && sall p s' end.
 
 Definition isdig (c : ascii) : bool := match digit_val c with Some _ => true | None => false end.
-(* characters of a printed spec: digits and '-' *)
-Definition okc (c : ascii) : bool := isdig c || Ascii.eqb c c_dash.
+(* an ASCII character that is not white space *)
+Definition plainb (c : ascii) : bool := Nat.ltb (nat_of_ascii c) 128 && negb (is_space c).
+(* neither ',' nor '-' *)
+Definition nosep (c : ascii) : bool := negb (Ascii.eqb c c_comma) && negb (Ascii.eqb c c_dash).
+Definition nocomma (c : ascii) : bool := negb (Ascii.eqb c c_comma).
+(* characters of a number: digits and '+' *)
+Definition numc (c : ascii) : bool := isdig c || Ascii.eqb c c_plus.
 
 Lemma sall_app : forall p a b, sall p (append a b) = sall p a && sall p b.
 Proof. induction a as [|c a IH]; intros b; simpl; auto. rewrite IH. apply andb_assoc. Qed.
@@ -36,35 +50,226 @@ Qed.
 Lemma isdig_digit_char : forall d, (d < 10)%N -> isdig (digit_char d) = true.
 Proof. intros d H. unfold isdig. rewrite digit_char_spec by assumption. reflexivity. Qed.
 
+Lemma isdig_range : forall c, isdig c = true -> (48 <= nat_of_ascii c <= 57)%nat.
+Proof.
+  intros c H. unfold isdig, digit_val in H.
+  destruct (Nat.leb 48 (nat_of_ascii c) && Nat.leb (nat_of_ascii c) 57) eqn:E; [|discriminate].
+  apply andb_true_iff in E. destruct E as [E1 E2].
+  apply Nat.leb_le in E1. apply Nat.leb_le in E2. lia.
+Qed.
+
 (* a digit is none of the characters the parser looks for *)
 Lemma isdig_neq : forall c x, isdig c = true -> isdig x = false -> Ascii.eqb c x = false.
 Proof.
   intros c x Hc Hx. destruct (Ascii.eqb c x) eqn:E; auto.
   apply Ascii.eqb_eq in E. subst. congruence.
 Qed.
-Lemma isdig_not_space : forall c, isdig c = true -> is_space c = false.
+Lemma is_space_range : forall c, is_space c = true ->
+  (nat_of_ascii c = 32 \/ 9 <= nat_of_ascii c <= 13)%nat.
 Proof.
-  intros c H. unfold isdig, digit_val in H. unfold is_space.
-  destruct (Nat.leb 48 (nat_of_ascii c) && Nat.leb (nat_of_ascii c) 57) eqn:E; [|discriminate].
-  apply andb_true_iff in E. destruct E as [E1 E2].
-  apply Nat.leb_le in E1. apply Nat.leb_le in E2.
-  destruct (Nat.eqb (nat_of_ascii c) 32) eqn:F1.
-  - apply Nat.eqb_eq in F1. lia.
-  - destruct (Nat.leb (nat_of_ascii c) 13) eqn:F2.
-    + apply Nat.leb_le in F2. lia.
-    + rewrite andb_false_r. reflexivity.
+  intros c H. unfold is_space in H. apply orb_true_iff in H. destruct H as [H|H].
+  - apply Nat.eqb_eq in H. lia.
+  - apply andb_true_iff in H. destruct H as [H1 H2]. apply Nat.leb_le in H1. apply Nat.leb_le in H2. lia.
 Qed.
-Lemma okc_not_space : forall c, okc c = true -> is_space c = false.
+Lemma not_space : forall c, (nat_of_ascii c <> 32 /\ ~ (9 <= nat_of_ascii c <= 13))%nat -> is_space c = false.
 Proof.
-  intros c H. unfold okc in H. apply orb_true_iff in H. destruct H as [H|H].
-  - apply isdig_not_space; assumption.
+  intros c H. destruct (is_space c) eqn:E; auto. apply is_space_range in E. lia.
+Qed.
+Lemma isdig_plain : forall c, isdig c = true -> plainb c = true.
+Proof.
+  intros c H. apply isdig_range in H. unfold plainb.
+  rewrite not_space by lia. replace (Nat.ltb (nat_of_ascii c) 128) with true; [reflexivity|].
+  symmetry. apply Nat.ltb_lt. lia.
+Qed.
+Lemma numc_plain : forall c, numc c = true -> plainb c = true.
+Proof.
+  intros c H. unfold numc in H. apply orb_true_iff in H. destruct H as [H|H].
+  - apply isdig_plain; assumption.
   - apply Ascii.eqb_eq in H. subst. reflexivity.
 Qed.
-Lemma okc_not_comma : forall c, okc c = true -> Ascii.eqb c c_comma = false.
+Lemma numc_nosep : forall c, numc c = true -> nosep c = true.
 Proof.
-  intros c H. unfold okc in H. apply orb_true_iff in H. destruct H as [H|H].
-  - apply isdig_neq; auto.
+  intros c H. unfold numc in H. apply orb_true_iff in H. destruct H as [H|H].
+  - unfold nosep. rewrite (isdig_neq c c_comma H eq_refl), (isdig_neq c c_dash H eq_refl). reflexivity.
   - apply Ascii.eqb_eq in H. subst. reflexivity.
+Qed.
+Lemma plain_not_space : forall c, plainb c = true -> is_space c = false.
+Proof. intros c H. unfold plainb in H. apply andb_true_iff in H. destruct H as [_ H]. apply negb_true_iff in H. exact H. Qed.
+Lemma plain_low : forall c, plainb c = true -> (nat_of_ascii c < 128)%nat.
+Proof. intros c H. unfold plainb in H. apply andb_true_iff in H. destruct H as [H _]. apply Nat.ltb_lt in H. exact H. Qed.
+
+(* ------------------------------------------------------------------ *)
+(* the multi-byte white-space runes: properties checked on the table *)
+Definition first_high (u : string) : bool :=
+  match u with String c _ => Nat.leb 128 (nat_of_ascii c) | EmptyString => false end.
+Fixpoint ends_plain (s : string) : bool :=
+  match s with
+  | EmptyString => false
+  | String c EmptyString => plainb c
+  | String _ s' => ends_plain s'
+  end.
+Definition starts_plain (s : string) : bool :=
+  match s with String c _ => plainb c | EmptyString => false end.
+
+Lemma in_multi_prop : forall (P : string -> bool), forallb P ws_multi = true ->
+  forall u, in_multi u = true -> P u = true.
+Proof.
+  intros P HP u Hu. unfold in_multi in Hu. apply existsb_exists in Hu.
+  destruct Hu as [x [Hin Heq]]. apply String.eqb_eq in Heq. subst x.
+  rewrite forallb_forall in HP. apply HP. assumption.
+Qed.
+
+Lemma multi_first_high : forall u, in_multi u = true -> first_high u = true.
+Proof. apply in_multi_prop. vm_compute. reflexivity. Qed.
+Lemma multi_not_ends_plain : forall u, in_multi u = true -> negb (ends_plain u) = true.
+Proof. apply in_multi_prop. vm_compute. reflexivity. Qed.
+Lemma multi_rtrim : forall u, in_multi u = true -> str_empty (rtrim u) = true.
+Proof. apply in_multi_prop. vm_compute. reflexivity. Qed.
+Lemma multi_nosep : forall u, in_multi u = true -> sall nosep u = true.
+Proof. apply in_multi_prop. vm_compute. reflexivity. Qed.
+
+Lemma multi_ltrim : forall u, In u ws_multi -> forall s, ltrim (append u s) = ltrim s.
+Proof.
+  assert (H : Forall (fun u => forall s, ltrim (append u s) = ltrim s) ws_multi).
+  { unfold ws_multi. repeat constructor; intros s; reflexivity. }
+  intros u Hu. rewrite Forall_forall in H. apply H. assumption.
+Qed.
+Lemma in_multi_In : forall u, in_multi u = true -> In u ws_multi.
+Proof.
+  intros u Hu. unfold in_multi in Hu. apply existsb_exists in Hu.
+  destruct Hu as [x [Hin Heq]]. apply String.eqb_eq in Heq. subst x. assumption.
+Qed.
+
+Lemma in_multi_plain_first : forall c s, plainb c = true -> in_multi (String c s) = false.
+Proof.
+  intros c s H. destruct (in_multi (String c s)) eqn:E; auto.
+  apply multi_first_high in E. unfold first_high in E. apply Nat.leb_le in E. apply plain_low in H. lia.
+Qed.
+
+(* ------------------------------------------------------------------ *)
+(* TrimSpace *)
+
+Lemma ltrim_plain : forall s, starts_plain s = true -> ltrim s = s.
+Proof.
+  intros [|c1 s1] H; [discriminate|]. simpl in H.
+  cbn [ltrim]. rewrite (plain_not_space c1 H).
+  destruct s1 as [|c2 s2]; [reflexivity|].
+  rewrite (in_multi_plain_first c1 _ H).
+  destruct s2 as [|c3 s3]; [reflexivity|].
+  rewrite (in_multi_plain_first c1 _ H). reflexivity.
+Qed.
+
+Lemma rune_ltrim : forall r, is_space_rune r = true -> forall s, ltrim (append r s) = ltrim s.
+Proof.
+  intros r H s. unfold is_space_rune in H.
+  destruct r as [|c [|c2 r2]].
+  - discriminate.
+  - cbn [append ltrim]. rewrite H. reflexivity.
+  - apply multi_ltrim. apply in_multi_In. assumption.
+Qed.
+Lemma rune_rtrim : forall r, is_space_rune r = true -> rtrim r = EmptyString.
+Proof.
+  intros r H. unfold is_space_rune in H.
+  destruct r as [|c [|c2 r2]].
+  - reflexivity.
+  - cbn [rtrim]. cbv zeta. cbn [is_space_rune]. rewrite H. reflexivity.
+  - apply multi_rtrim in H. destruct (rtrim (String c (String c2 r2))); [reflexivity|discriminate].
+Qed.
+Lemma rune_nosep : forall r, is_space_rune r = true -> sall nosep r = true.
+Proof.
+  intros r H. unfold is_space_rune in H.
+  destruct r as [|c [|c2 r2]].
+  - reflexivity.
+  - apply is_space_range in H. cbn [sall]. rewrite andb_true_r. unfold nosep.
+    assert (E1 : Ascii.eqb c c_comma = false).
+    { destruct (Ascii.eqb c c_comma) eqn:E; auto. apply Ascii.eqb_eq in E. subst. change (nat_of_ascii c_comma) with 44%nat in H. lia. }
+    assert (E2 : Ascii.eqb c c_dash = false).
+    { destruct (Ascii.eqb c c_dash) eqn:E; auto. apply Ascii.eqb_eq in E. subst. change (nat_of_ascii c_dash) with 45%nat in H. lia. }
+    rewrite E1, E2. reflexivity.
+  - apply multi_nosep. assumption.
+Qed.
+
+Lemma ws_ok_cons : forall r w, ws_ok (r :: w) = true -> is_space_rune r = true /\ ws_ok w = true.
+Proof. intros r w H. unfold ws_ok in H. simpl in H. apply andb_true_iff in H. exact H. Qed.
+
+Lemma ltrim_ws : forall w s, ws_ok w = true -> ltrim (append (ws_str w) s) = ltrim s.
+Proof.
+  induction w as [|r w IH]; intros s H; [reflexivity|].
+  apply ws_ok_cons in H. destruct H as [Hr Hw].
+  cbn [ws_str fold_right]. rewrite app_assoc_s. rewrite rune_ltrim by assumption. apply IH. assumption.
+Qed.
+
+Lemma rtrim_app_empty : forall u x, rtrim x = EmptyString -> rtrim (append u x) = rtrim u.
+Proof.
+  induction u as [|c u IH]; intros x H; simpl; [assumption|]. rewrite IH by assumption. reflexivity.
+Qed.
+Lemma rtrim_ws : forall w, ws_ok w = true -> rtrim (ws_str w) = EmptyString.
+Proof.
+  induction w as [|r w IH]; intros H; [reflexivity|].
+  apply ws_ok_cons in H. destruct H as [Hr Hw].
+  cbn [ws_str fold_right]. rewrite rtrim_app_empty by (apply IH; assumption). apply rune_rtrim. assumption.
+Qed.
+Lemma rtrim_app_ws : forall s w, ws_ok w = true -> rtrim (append s (ws_str w)) = rtrim s.
+Proof. intros s w H. apply rtrim_app_empty. apply rtrim_ws. assumption. Qed.
+
+Lemma rtrim_ends_plain : forall s, ends_plain s = true -> rtrim s = s.
+Proof.
+  induction s as [|c s IH]; intros H; [discriminate|].
+  destruct s as [|c2 s2].
+  - simpl in H. cbn [rtrim]. cbv zeta. cbn [is_space_rune]. rewrite (plain_not_space c H). reflexivity.
+  - assert (H' : ends_plain (String c2 s2) = true) by exact H.
+    change (rtrim (String c (String c2 s2))) with
+      (let u := String c (rtrim (String c2 s2)) in if is_space_rune u then EmptyString else u).
+    rewrite (IH H'). cbv zeta. cbn [is_space_rune].
+    destruct (in_multi (String c (String c2 s2))) eqn:E; [|reflexivity].
+    apply multi_not_ends_plain in E. apply negb_true_iff in E. congruence.
+Qed.
+
+Lemma ends_plain_app : forall a b, str_empty b = false -> ends_plain (append a b) = ends_plain b.
+Proof.
+  induction a as [|c a IH]; intros b Hb; [reflexivity|].
+  cbn [append]. specialize (IH b Hb).
+  destruct (append a b) as [|c2 s2] eqn:E.
+  - destruct a; simpl in E; [subst; discriminate|discriminate].
+  - cbn [ends_plain]. cbn [ends_plain] in IH. exact IH.
+Qed.
+Lemma starts_plain_app : forall a b, starts_plain a = true -> starts_plain (append a b) = true.
+Proof. intros [|c a] b H; [discriminate|exact H]. Qed.
+Lemma starts_plain_nonempty : forall s, starts_plain s = true -> str_empty s = false.
+Proof. intros [|c s] H; [discriminate|reflexivity]. Qed.
+Lemma ends_plain_nonempty : forall s, ends_plain s = true -> str_empty s = false.
+Proof. intros [|c s] H; [discriminate|reflexivity]. Qed.
+
+(* white space, a core that begins and ends with a plain character, white space *)
+Lemma trim_framed : forall w1 core w4, ws_ok w1 = true -> ws_ok w4 = true ->
+  starts_plain core = true -> ends_plain core = true ->
+  trim (append (ws_str w1) (append core (ws_str w4))) = core.
+Proof.
+  intros w1 core w4 H1 H4 Hs He. unfold trim.
+  rewrite ltrim_ws by assumption.
+  rewrite ltrim_plain by (apply starts_plain_app; assumption).
+  rewrite rtrim_app_ws by assumption. apply rtrim_ends_plain. assumption.
+Qed.
+Lemma trim_right_ws : forall core w, ws_ok w = true -> starts_plain core = true -> ends_plain core = true ->
+  trim (append core (ws_str w)) = core.
+Proof. intros core w Hw Hs He. apply (trim_framed [] core w); auto. Qed.
+Lemma trim_left_ws : forall core w, ws_ok w = true -> starts_plain core = true -> ends_plain core = true ->
+  trim (append (ws_str w) core) = core.
+Proof.
+  intros core w Hw Hs He. pose proof (trim_framed w core [] Hw eq_refl Hs He) as H.
+  cbn [ws_str fold_right] in H. rewrite app_nil_r_s in H. exact H.
+Qed.
+Lemma trim_ws : forall w, ws_ok w = true -> trim (ws_str w) = EmptyString.
+Proof.
+  intros w H. unfold trim.
+  rewrite <- (app_nil_r_s (ws_str w)). rewrite ltrim_ws by assumption. reflexivity.
+Qed.
+
+Lemma ws_nosep : forall w, ws_ok w = true -> sall nosep (ws_str w) = true.
+Proof.
+  induction w as [|r w IH]; intros H; [reflexivity|].
+  apply ws_ok_cons in H. destruct H as [Hr Hw].
+  cbn [ws_str fold_right]. rewrite sall_app, (rune_nosep r Hr). apply IH. assumption.
 Qed.
 
 (* ------------------------------------------------------------------ *)
@@ -130,63 +335,108 @@ Proof. intros. apply print_digits_all. reflexivity. Qed.
 Lemma print_N_nonempty : forall n, str_empty (print_N n) = false.
 Proof. intros. apply print_digits_nonempty. Qed.
 
-Lemma parse_int_print_N : forall n, Z.of_N n <= int64_max -> parse_int (print_N n) = Some (Z.of_N n).
+(* leading zeros *)
+Lemma zeros_all : forall k s, sall isdig s = true -> sall isdig (zeros k s) = true.
+Proof. induction k as [|k IH]; intros s H; simpl; auto. Qed.
+Lemma zeros_nonempty : forall k s, str_empty s = false -> str_empty (zeros k s) = false.
+Proof. intros [|k] s H; [assumption|reflexivity]. Qed.
+Lemma parse_digits_zeros : forall k s, parse_digits (zeros k s) 0 = parse_digits s 0.
+Proof. induction k as [|k IH]; intros s; simpl; auto. Qed.
+
+(* a rendered number: '+'? 0* digits *)
+Lemma render_num_numc : forall f n, sall numc (render_num f n) = true.
 Proof.
-  intros n Hn. pose proof (print_N_all n) as Ha. pose proof (print_N_nonempty n) as Hne.
-  pose proof (parse_digits_print_N n) as Hp.
-  destruct (print_N n) as [|c s] eqn:E; [discriminate|].
+  intros f n. unfold render_num.
+  assert (H : sall numc (zeros (nf_zeros f) (print_N n)) = true).
+  { eapply sall_impl; [|apply zeros_all, print_N_all]. intros c Hc. unfold numc. rewrite Hc. reflexivity. }
+  destruct (nf_plus f); [simpl; exact H|exact H].
+Qed.
+Lemma sall_isdig_ends_plain : forall s, sall isdig s = true -> str_empty s = false -> ends_plain s = true.
+Proof.
+  induction s as [|c s IH]; intros H Hne; [discriminate|].
+  simpl in H. apply andb_true_iff in H. destruct H as [H1 H2].
+  destruct s as [|c2 s2]; [simpl; apply isdig_plain; assumption|].
+  change (ends_plain (String c (String c2 s2))) with (ends_plain (String c2 s2)).
+  apply IH; auto.
+Qed.
+Lemma render_num_ends_plain : forall f n, ends_plain (render_num f n) = true.
+Proof.
+  intros f n. unfold render_num.
+  assert (H : ends_plain (zeros (nf_zeros f) (print_N n)) = true).
+  { apply sall_isdig_ends_plain; [apply zeros_all, print_N_all|apply zeros_nonempty, print_N_nonempty]. }
+  destruct (nf_plus f); [|exact H].
+  change (String c_plus (zeros (nf_zeros f) (print_N n))) with (append (String c_plus EmptyString) (zeros (nf_zeros f) (print_N n))).
+  rewrite ends_plain_app; [exact H|apply zeros_nonempty, print_N_nonempty].
+Qed.
+Lemma render_num_starts_plain : forall f n, starts_plain (render_num f n) = true.
+Proof.
+  intros f n. pose proof (render_num_numc f n) as H. pose proof (render_num_ends_plain f n) as He.
+  destruct (render_num f n) as [|c s]; [discriminate|].
+  simpl in H. apply andb_true_iff in H. destruct H as [H _]. simpl. apply numc_plain. assumption.
+Qed.
+Lemma render_num_nosep : forall f n, sall nosep (render_num f n) = true.
+Proof. intros f n. eapply sall_impl; [|apply render_num_numc]. apply numc_nosep. Qed.
+
+Lemma parse_int_digits : forall s v, sall isdig s = true -> str_empty s = false -> 0 <= v ->
+  parse_digits s 0 = Some v ->
+  parse_int s = if (v <=? int64_max) then Some v else None.
+Proof.
+  intros s v Ha Hne Hv Hp. destruct s as [|c s]; [discriminate|].
   unfold parse_int. simpl in Ha. apply andb_true_iff in Ha. destruct Ha as [Hc Hs].
   rewrite (isdig_neq c c_plus Hc eq_refl), (isdig_neq c c_dash Hc eq_refl).
   cbn [str_empty]. rewrite Hp. cbv zeta.
-  pose proof int64_min_val. destruct ((int64_min <=? Z.of_N n) && (Z.of_N n <=? int64_max)) eqn:F; [reflexivity|lia].
+  pose proof int64_min_val.
+  replace (int64_min <=? v) with true by lia. cbn [andb]. reflexivity.
+Qed.
+
+Lemma parse_int_render : forall f n,
+  parse_int (render_num f n) = if num_big n then None else Some (Z.of_N n).
+Proof.
+  intros f n. unfold render_num, num_big.
+  set (body := zeros (nf_zeros f) (print_N n)).
+  assert (Ha : sall isdig body = true) by (apply zeros_all, print_N_all).
+  assert (Hne : str_empty body = false) by (apply zeros_nonempty, print_N_nonempty).
+  assert (Hp : parse_digits body 0 = Some (Z.of_N n)) by (unfold body; rewrite parse_digits_zeros; apply parse_digits_print_N).
+  assert (Hres : parse_int body = if num_big n then None else Some (Z.of_N n)).
+  { rewrite (parse_int_digits body (Z.of_N n) Ha Hne (N2Z.is_nonneg n) Hp). unfold num_big.
+    destruct (Z.of_N n <=? int64_max) eqn:E; destruct (Z.of_N n >? int64_max) eqn:E2; try reflexivity; lia. }
+  unfold num_big in Hres.
+  destruct (nf_plus f); [|exact Hres].
+  (* "+" body *)
+  unfold parse_int. change (Ascii.eqb c_plus c_plus) with true. cbv iota beta.
+  rewrite Hne, Hp. cbv zeta. pose proof int64_min_val.
+  destruct (Z.of_N n >? int64_max) eqn:E.
+  - replace ((int64_min <=? Z.of_N n) && (Z.of_N n <=? int64_max)) with false by lia. reflexivity.
+  - replace ((int64_min <=? Z.of_N n) && (Z.of_N n <=? int64_max)) with true by lia. reflexivity.
 Qed.
 
 (* ------------------------------------------------------------------ *)
-(* TrimSpace, Index, Split on printed specs *)
-Lemma ltrim_nospace : forall s, sall (fun c => negb (is_space c)) s = true -> ltrim s = s.
-Proof.
-  intros [|c s] H; simpl in *; auto.
-  apply andb_true_iff in H. destruct H as [H _]. apply negb_true_iff in H. rewrite H. reflexivity.
-Qed.
-Lemma rtrim_nospace : forall s, sall (fun c => negb (is_space c)) s = true -> rtrim s = s.
-Proof.
-  induction s as [|c s IH]; intros H; simpl in *; auto.
-  apply andb_true_iff in H. destruct H as [H1 H2]. apply negb_true_iff in H1.
-  rewrite IH by assumption. rewrite H1. reflexivity.
-Qed.
-Lemma trim_okc : forall s, sall okc s = true -> trim s = s.
-Proof.
-  intros s H. assert (H' : sall (fun c => negb (is_space c)) s = true).
-  { eapply sall_impl; [|exact H]. intros c Hc. rewrite (okc_not_space c Hc). reflexivity. }
-  unfold trim. rewrite ltrim_nospace by assumption. apply rtrim_nospace. assumption.
-Qed.
-Lemma isdig_okc : forall s, sall isdig s = true -> sall okc s = true.
-Proof. intros s. apply sall_impl. intros c H. unfold okc. rewrite H. reflexivity. Qed.
-
-Lemma cut_at_digits : forall a b, sall isdig a = true ->
+(* Index and Split *)
+Lemma cut_at_nosep : forall a b, sall nosep a = true ->
   cut_at c_dash (append a (String c_dash b)) = Some (a, b).
 Proof.
   induction a as [|c a IH]; intros b H; simpl in *.
   - reflexivity.
   - apply andb_true_iff in H. destruct H as [H1 H2].
-    rewrite (isdig_neq c c_dash H1 eq_refl). rewrite IH by assumption. reflexivity.
+    unfold nosep in H1. apply andb_true_iff in H1. destruct H1 as [_ H1]. apply negb_true_iff in H1.
+    rewrite H1. rewrite IH by assumption. reflexivity.
 Qed.
 
-Lemma split_no_sep : forall s, sall okc s = true -> split_on c_comma s = [s].
+Lemma split_no_sep : forall s, sall nocomma s = true -> split_on c_comma s = [s].
 Proof.
   induction s as [|c s IH]; intros H; simpl in *; auto.
-  apply andb_true_iff in H. destruct H as [H1 H2].
-  rewrite (okc_not_comma c H1), IH by assumption. reflexivity.
+  apply andb_true_iff in H. destruct H as [H1 H2]. unfold nocomma in H1. apply negb_true_iff in H1.
+  rewrite H1, IH by assumption. reflexivity.
 Qed.
-Lemma split_app_sep : forall a r, sall okc a = true ->
+Lemma split_app_sep : forall a r, sall nocomma a = true ->
   split_on c_comma (append a (String c_comma r)) = a :: split_on c_comma r.
 Proof.
   induction a as [|c a IH]; intros r H; simpl in *.
   - reflexivity.
-  - apply andb_true_iff in H. destruct H as [H1 H2].
-    rewrite (okc_not_comma c H1), IH by assumption. reflexivity.
+  - apply andb_true_iff in H. destruct H as [H1 H2]. unfold nocomma in H1. apply negb_true_iff in H1.
+    rewrite H1, IH by assumption. reflexivity.
 Qed.
-Lemma split_join : forall l, l <> [] -> (forall x, In x l -> sall okc x = true) ->
+Lemma split_join : forall l, l <> [] -> (forall x, In x l -> sall nocomma x = true) ->
   split_on c_comma (join_comma l) = l.
 Proof.
   induction l as [|x l IH]; intros Hne H; [congruence|].
@@ -197,135 +447,248 @@ Proof.
     f_equal. apply IH; [congruence|]. intros z Hz. apply H. right. assumption.
 Qed.
 
+Lemma nosep_nocomma : forall s, sall nosep s = true -> sall nocomma s = true.
+Proof.
+  intros s. apply sall_impl. intros c H. unfold nosep in H. apply andb_true_iff in H. destruct H as [H _]. exact H.
+Qed.
+
 (* ------------------------------------------------------------------ *)
-(* one spec *)
-Definition spec_small (sp : rspec) : Prop :=
-  match sp with
-  | RClosed a b => Z.of_N a <= int64_max /\ Z.of_N b <= int64_max
-  | RFrom a => Z.of_N a <= int64_max
-  | RSuffix n => Z.of_N n <= int64_max
-  end.
+(* one element *)
 
-Lemma print_spec_okc : forall sp, sall okc (print_spec sp) = true.
+Lemma render_item_nocomma : forall it, item_ok it = true -> sall nocomma (render_item it) = true.
 Proof.
-  intros [a b|a|n]; unfold print_spec.
-  - rewrite sall_app. simpl. rewrite !isdig_okc by apply print_N_all. reflexivity.
-  - rewrite sall_app. simpl. rewrite isdig_okc by apply print_N_all. reflexivity.
-  - simpl. rewrite isdig_okc by apply print_N_all. reflexivity.
-Qed.
-Lemma print_spec_nonempty : forall sp, str_empty (print_spec sp) = false.
-Proof.
-  intros [a b|a|n]; unfold print_spec.
-  - pose proof (print_N_nonempty a). destruct (print_N a); [discriminate|reflexivity].
-  - pose proof (print_N_nonempty a). destruct (print_N a); [discriminate|reflexivity].
-  - reflexivity.
+  intros it H. destruct it as [w|w1 fa a w2 w3 fb b w4|w1 fa a w2 w3|w1 w3 fn n w4]; simpl in H;
+    repeat (match goal with H : _ && _ = true |- _ => apply andb_true_iff in H; destruct H end);
+    cbn [render_item]; repeat (rewrite sall_app || cbn [sall]);
+    repeat (match goal with H : ws_ok ?w = true |- _ => rewrite (nosep_nocomma _ (ws_nosep w H)); clear H end);
+    rewrite ?(nosep_nocomma _ (render_num_nosep _ _)); reflexivity.
 Qed.
 
-Lemma parse_one_print : forall sp size, 0 <= size <= int64_max -> spec_small sp ->
-  parse_one (print_spec sp) size = parse_spec sp size.
+(* an element that carries a spec: what TrimSpace leaves and how parse_one reads it *)
+Lemma parse_item_closed : forall w1 fa a w2 w3 fb b w4 size, 0 <= size <= int64_max ->
+  item_ok (IClosed w1 fa a w2 w3 fb b w4) = true ->
+  let ra := trim (render_item (IClosed w1 fa a w2 w3 fb b w4)) in
+  str_empty ra = false /\ parse_one ra size = parse_spec64 (RClosed a b) size.
 Proof.
-  intros sp size Hs Hsm. pose proof int64_min_val as Emin. pose proof int64_max_val as Emax.
-  destruct sp as [a b|a|n]; unfold print_spec, parse_one, parse_spec; cbv zeta.
-  - destruct Hsm as [Ha Hb].
-    rewrite cut_at_digits by apply print_N_all.
-    rewrite !trim_okc by (apply isdig_okc, print_N_all).
-    rewrite !print_N_nonempty. rewrite !parse_int_print_N by assumption.
-    replace ((Z.of_N a >? size) || (Z.of_N a <? 0)) with (Z.of_N a >? size) by lia.
-    reflexivity.
-  - rewrite cut_at_digits by apply print_N_all.
-    rewrite trim_okc by (apply isdig_okc, print_N_all).
-    rewrite print_N_nonempty. rewrite parse_int_print_N by assumption.
-    replace ((Z.of_N a >? size) || (Z.of_N a <? 0)) with (Z.of_N a >? size) by lia.
-    reflexivity.
-  - simpl cut_at. cbn [trim ltrim rtrim str_empty].
-    rewrite trim_okc by (apply isdig_okc, print_N_all).
-    rewrite parse_int_print_N by assumption.
-    set (i := if Z.of_N n >? size then size else Z.of_N n).
-    assert (Hi : 0 <= i <= size) by (subst i; destruct (Z.of_N n >? size) eqn:E; lia).
-    rewrite wrap64_sub_sub by lia. rewrite wrap64_id by lia. reflexivity.
+  intros w1 fa a w2 w3 fb b w4 size Hs H. simpl in H.
+  repeat (match goal with H : _ && _ = true |- _ => apply andb_true_iff in H; destruct H end).
+  cbn [render_item]. cbv zeta.
+  set (A := render_num fa a). set (B := render_num fb b).
+  set (core := append (append A (ws_str w2)) (String c_dash (append (ws_str w3) B))).
+  assert (HsA : starts_plain A = true) by apply render_num_starts_plain.
+  assert (HeA : ends_plain A = true) by apply render_num_ends_plain.
+  assert (HsB : starts_plain B = true) by apply render_num_starts_plain.
+  assert (HeB : ends_plain B = true) by apply render_num_ends_plain.
+  assert (Hsc : starts_plain core = true).
+  { unfold core. apply starts_plain_app. apply starts_plain_app. assumption. }
+  assert (Hec : ends_plain core = true).
+  { unfold core. rewrite ends_plain_app by reflexivity.
+    change (String c_dash (append (ws_str w3) B)) with (append (String c_dash (ws_str w3)) B).
+    rewrite ends_plain_app by (apply ends_plain_nonempty; assumption). assumption. }
+  rewrite trim_framed by assumption.
+  split; [apply starts_plain_nonempty; assumption|].
+  unfold parse_one, core.
+  rewrite cut_at_nosep by (rewrite sall_app; unfold A; rewrite (render_num_nosep fa a), (ws_nosep w2) by assumption; reflexivity).
+  rewrite trim_right_ws by assumption. rewrite trim_left_ws by assumption. cbv zeta.
+  rewrite (starts_plain_nonempty A HsA), (starts_plain_nonempty B HsB).
+  unfold A, B. rewrite !parse_int_render.
+  unfold parse_spec64. cbn [spec_big].
+  destruct (num_big a) eqn:Ea; [reflexivity|]. cbn [orb].
+  unfold parse_spec. cbv zeta.
+  replace ((Z.of_N a >? size) || (Z.of_N a <? 0)) with (Z.of_N a >? size) by lia.
+  destruct (Z.of_N a >? size); [destruct (num_big b); reflexivity|].
+  destruct (num_big b); reflexivity.
 Qed.
 
-Lemma parse_items_print : forall sps size, 0 <= size <= int64_max -> (forall sp, In sp sps -> spec_small sp) ->
-  parse_items (map print_spec sps) size = parse_specs sps size.
+Lemma parse_item_from : forall w1 fa a w2 w3 size, 0 <= size <= int64_max ->
+  item_ok (IFrom w1 fa a w2 w3) = true ->
+  let ra := trim (render_item (IFrom w1 fa a w2 w3)) in
+  str_empty ra = false /\ parse_one ra size = parse_spec64 (RFrom a) size.
 Proof.
-  induction sps as [|sp sps IH]; intros size Hs Hsm; simpl; auto.
-  rewrite trim_okc by apply print_spec_okc. rewrite print_spec_nonempty.
-  rewrite parse_one_print by (auto; apply Hsm; left; reflexivity).
-  rewrite IH by (auto; intros; apply Hsm; right; assumption). reflexivity.
+  intros w1 fa a w2 w3 size Hs H. simpl in H.
+  repeat (match goal with H : _ && _ = true |- _ => apply andb_true_iff in H; destruct H end).
+  cbn [render_item]. cbv zeta.
+  set (A := render_num fa a).
+  set (core := append (append A (ws_str w2)) (String c_dash EmptyString)).
+  assert (HsA : starts_plain A = true) by apply render_num_starts_plain.
+  assert (HeA : ends_plain A = true) by apply render_num_ends_plain.
+  assert (Hsc : starts_plain core = true).
+  { unfold core. apply starts_plain_app. apply starts_plain_app. assumption. }
+  assert (Hec : ends_plain core = true).
+  { unfold core. rewrite ends_plain_app by reflexivity. reflexivity. }
+  rewrite trim_framed by assumption.
+  split; [apply starts_plain_nonempty; assumption|].
+  unfold parse_one, core.
+  rewrite cut_at_nosep by (rewrite sall_app; unfold A; rewrite (render_num_nosep fa a), (ws_nosep w2) by assumption; reflexivity).
+  rewrite trim_right_ws by assumption. cbv zeta.
+  rewrite (starts_plain_nonempty A HsA).
+  unfold A. rewrite parse_int_render.
+  unfold parse_spec64. cbn [spec_big].
+  destruct (num_big a) eqn:Ea; [reflexivity|].
+  unfold parse_spec. cbv zeta.
+  replace ((Z.of_N a >? size) || (Z.of_N a <? 0)) with (Z.of_N a >? size) by lia.
+  reflexivity.
 Qed.
 
-(* parseRange on the text of a header = the structured parser on its specs *)
-Theorem parse_range_print : forall sps size, 0 <= size <= int64_max ->
-  (forall sp, In sp sps -> spec_small sp) ->
-  parse_range (print_header sps) size = parse_specs sps size.
+Lemma parse_item_suffix : forall w1 w3 fn n w4 size, 0 <= size <= int64_max ->
+  item_ok (ISuffix w1 w3 fn n w4) = true ->
+  let ra := trim (render_item (ISuffix w1 w3 fn n w4)) in
+  str_empty ra = false /\ parse_one ra size = parse_spec64 (RSuffix n) size.
 Proof.
-  intros sps size Hs Hsm. unfold parse_range, print_header.
-  change (strip_prefix "bytes=" (append "bytes=" (join_comma (map print_spec sps))))
-    with (Some (join_comma (map print_spec sps))).
-  destruct sps as [|sp sps].
+  intros w1 w3 fn n w4 size Hs H. simpl in H.
+  repeat (match goal with H : _ && _ = true |- _ => apply andb_true_iff in H; destruct H end).
+  cbn [render_item]. cbv zeta.
+  set (B := render_num fn n).
+  set (core := String c_dash (append (ws_str w3) B)).
+  assert (HsB : starts_plain B = true) by apply render_num_starts_plain.
+  assert (HeB : ends_plain B = true) by apply render_num_ends_plain.
+  assert (Hsc : starts_plain core = true) by reflexivity.
+  assert (Hec : ends_plain core = true).
+  { unfold core. change (String c_dash (append (ws_str w3) B)) with (append (String c_dash (ws_str w3)) B).
+    rewrite ends_plain_app by (apply ends_plain_nonempty; assumption). assumption. }
+  rewrite trim_framed by assumption.
+  split; [reflexivity|].
+  unfold parse_one, core. cbn [cut_at]. change (Ascii.eqb c_dash c_dash) with true. cbv iota.
+  change (trim EmptyString) with EmptyString. cbv zeta. cbn [str_empty].
+  rewrite trim_left_ws by assumption.
+  unfold B. rewrite parse_int_render.
+  unfold parse_spec64. cbn [spec_big].
+  destruct (num_big n) eqn:En; [reflexivity|].
+  unfold parse_spec. cbv zeta. unfold num_big in En.
+  pose proof int64_min_val as Emin. pose proof int64_max_val as Emax.
+  set (i := if Z.of_N n >? size then size else Z.of_N n).
+  assert (Hi : 0 <= i <= size) by (subst i; destruct (Z.of_N n >? size) eqn:E; lia).
+  rewrite wrap64_sub_sub by lia. rewrite wrap64_id by lia. reflexivity.
+Qed.
+
+Lemma parse_items_render : forall its size, 0 <= size <= int64_max -> items_ok its = true ->
+  parse_items (map render_item its) size = parse_specs (specs_of its) size.
+Proof.
+  induction its as [|it its IH]; intros size Hs H; [reflexivity|].
+  unfold items_ok in H. simpl in H. apply andb_true_iff in H. destruct H as [Hit Hits].
+  specialize (IH size Hs Hits).
+  cbn [map parse_items specs_of]. cbv zeta.
+  destruct it as [w|w1 fa a w2 w3 fb b w4|w1 fa a w2 w3|w1 w3 fn n w4].
+  - cbn [render_item item_spec]. simpl in Hit. rewrite trim_ws by assumption. cbn [str_empty]. exact IH.
+  - destruct (parse_item_closed w1 fa a w2 w3 fb b w4 size Hs Hit) as [H1 H2].
+    cbv zeta in H1, H2. rewrite H1, H2. cbn [item_spec parse_specs]. rewrite IH. reflexivity.
+  - destruct (parse_item_from w1 fa a w2 w3 size Hs Hit) as [H1 H2].
+    cbv zeta in H1, H2. rewrite H1, H2. cbn [item_spec parse_specs]. rewrite IH. reflexivity.
+  - destruct (parse_item_suffix w1 w3 fn n w4 size Hs Hit) as [H1 H2].
+    cbv zeta in H1, H2. rewrite H1, H2. cbn [item_spec parse_specs]. rewrite IH. reflexivity.
+Qed.
+
+(* parseRange on ANY spelling of a header = the structured parser on its specs *)
+Theorem parse_range_render : forall its size, 0 <= size <= int64_max -> items_ok its = true ->
+  parse_range (render_header its) size = parse_specs (specs_of its) size.
+Proof.
+  intros its size Hs H. unfold parse_range, render_header.
+  change (strip_prefix "bytes=" (append "bytes=" (join_comma (map render_item its))))
+    with (Some (join_comma (map render_item its))).
+  destruct its as [|it its].
   - reflexivity.
   - rewrite split_join.
-    + apply parse_items_print; assumption.
+    + apply parse_items_render; assumption.
     + discriminate.
-    + intros x Hx. apply in_map_iff in Hx. destruct Hx as [s0 [<- _]]. apply print_spec_okc.
+    + intros x Hx. apply in_map_iff in Hx. destruct Hx as [it0 [<- Hin]].
+      apply render_item_nocomma. unfold items_ok in H. rewrite forallb_forall in H. apply H. assumption.
 Qed.
 
+Theorem renders_parse : forall sps hdr size, 0 <= size <= int64_max -> renders sps hdr ->
+  parse_range hdr size = parse_specs sps size.
+Proof.
+  intros sps hdr size Hs [its [Hok [<- <-]]]. apply parse_range_render; assumption.
+Qed.
+
+(* the canonical spelling is the printed header *)
+Lemma canon_item_render : forall sp, render_item (canon_item sp) = print_spec sp.
+Proof.
+  intros [a b|a|n]; cbn [canon_item render_item print_spec ws_str fold_right append];
+    unfold render_num; cbn [nf0 nf_plus nf_zeros zeros]; rewrite ?app_nil_r_s; reflexivity.
+Qed.
+Lemma canon_render : forall sps, render_header (canon sps) = print_header sps.
+Proof.
+  intros sps. unfold render_header, print_header, canon. rewrite map_map.
+  f_equal. f_equal. apply map_ext. apply canon_item_render.
+Qed.
+Lemma canon_ok : forall sps, items_ok (canon sps) = true.
+Proof.
+  intros sps. unfold items_ok, canon. apply forallb_forall. intros it Hin.
+  apply in_map_iff in Hin. destruct Hin as [sp [<- _]]. destruct sp; reflexivity.
+Qed.
+Lemma canon_specs : forall sps, specs_of (canon sps) = sps.
+Proof. induction sps as [|sp sps IH]; [reflexivity|]. unfold canon in *. destruct sp; cbn [map canon_item specs_of item_spec]; rewrite IH; reflexivity. Qed.
+Lemma print_renders : forall sps, renders sps (print_header sps).
+Proof. intros sps. exists (canon sps). split; [apply canon_ok|]. split; [apply canon_specs|apply canon_render]. Qed.
+
+(* parseRange on the printed header = the structured parser, for all numbers *)
+Theorem parse_range_print : forall sps size, 0 <= size <= int64_max ->
+  parse_range (print_header sps) size = parse_specs sps size.
+Proof. intros sps size Hs. apply renders_parse; [assumption|apply print_renders]. Qed.
+
+Lemma render_header_nonempty : forall its, str_empty (render_header its) = false.
+Proof. reflexivity. Qed.
 Lemma print_header_nonempty : forall sps, str_empty (print_header sps) = false.
 Proof. reflexivity. Qed.
 
 (* ------------------------------------------------------------------ *)
 (* C32 on the header text *)
 
-(* structured headers, through the text parser *)
-Theorem exact_partial : forall d sps enc, blen d <= int64_max ->
-  (forall sp, In sp sps -> spec_small sp) ->
-  trig_specs sps (blen d) = None ->
-  spec_ok d sps (process_range (print_header sps) d enc) = true.
+(* every spelling of a structured header *)
+Theorem exact_partial : forall d its enc ct, blen d <= int64_max -> items_ok its = true ->
+  mp_fits (blen d) (slen ct) (ref_ranges (specs_of its) (blen d)) = true ->
+  trig_specs (specs_of its) (blen d) = None ->
+  spec_ok d (specs_of its) (process_range (render_header its) d enc ct) = true.
 Proof.
-  intros d sps enc Hm Hsm Ht. unfold process_range. rewrite print_header_nonempty.
-  rewrite parse_range_print; [|split; [apply blen_nonneg|assumption]|assumption].
-  apply exact_specs_partial. assumption.
+  intros d its enc ct Hm Hok Hfit Ht. unfold process_range. rewrite render_header_nonempty.
+  rewrite parse_range_render; [|split; [apply blen_nonneg|assumption]|assumption].
+  apply exact_specs_partial; assumption.
+Qed.
+Theorem exact_partial_print : forall d sps enc ct, blen d <= int64_max ->
+  mp_fits (blen d) (slen ct) (ref_ranges sps (blen d)) = true ->
+  trig_specs sps (blen d) = None ->
+  spec_ok d sps (process_range (print_header sps) d enc ct) = true.
+Proof.
+  intros d sps enc ct Hm Hfit Ht. rewrite <- canon_render.
+  pose proof (exact_partial d (canon sps) enc ct Hm (canon_ok sps)) as H.
+  rewrite canon_specs in H. apply H; assumption.
+Qed.
+
+(* the parser alone, on every spelling *)
+Theorem parse_only_partial : forall its size, 0 <= size <= int64_max -> items_ok its = true ->
+  trig_parse_specs (specs_of its) size = None ->
+  parse_spec_ok (specs_of its) size (parse_range (render_header its) size) = true.
+Proof.
+  intros its size Hs Hok Ht. rewrite parse_range_render by assumption.
+  apply parse_specs_partial; [lia|assumption].
 Qed.
 
 (* the single-range forms on the header text *)
 Theorem parse_range_closed : forall a b size, 0 <= size <= int64_max -> Z.of_N b <= int64_max ->
   (a <= b)%N -> Z.of_N a < size ->
   parse_range (print_header [RClosed a b]) size = Some [(Z.of_N a, Z.min (Z.of_N b) (size - 1) - Z.of_N a + 1)].
-Proof.
-  intros a b size Hs Hb Hab Ha. rewrite parse_range_print; auto.
-  - apply parse_closed; assumption.
-  - intros sp [<-|[]]. simpl. lia.
-Qed.
+Proof. intros a b size Hs Hb Hab Ha. rewrite parse_range_print by assumption. apply parse_closed; lia. Qed.
 Theorem parse_range_from : forall a size, 0 <= size <= int64_max -> Z.of_N a < size ->
   parse_range (print_header [RFrom a]) size = Some [(Z.of_N a, size - Z.of_N a)].
-Proof.
-  intros a size Hs Ha. rewrite parse_range_print; auto.
-  - apply parse_from; assumption.
-  - intros sp [<-|[]]. simpl. lia.
-Qed.
+Proof. intros a size Hs Ha. rewrite parse_range_print by assumption. apply parse_from; lia. Qed.
 Theorem parse_range_suffix : forall n size, 0 <= size <= int64_max -> Z.of_N n <= int64_max ->
   parse_range (print_header [RSuffix n]) size = Some [(size - Z.min (Z.of_N n) size, Z.min (Z.of_N n) size)].
-Proof.
-  intros n size Hs Hn. rewrite parse_range_print; auto.
-  - apply parse_suffix; lia.
-  - intros sp [<-|[]]. simpl. lia.
-Qed.
-Theorem parse_range_beyond : forall a b size, 0 <= size <= int64_max ->
-  Z.of_N a <= int64_max -> Z.of_N b <= int64_max -> size < Z.of_N a ->
+Proof. intros n size Hs Hn. rewrite parse_range_print by assumption. apply parse_suffix; lia. Qed.
+Theorem parse_range_beyond : forall a b size, 0 <= size <= int64_max -> size < Z.of_N a ->
   parse_range (print_header [RClosed a b]) size = None.
-Proof.
-  intros a b size Hs Ha Hb H. rewrite parse_range_print; auto.
-  - apply parse_start_beyond; assumption.
-  - intros sp [<-|[]]. simpl. lia.
-Qed.
+Proof. intros a b size Hs H. rewrite parse_range_print by assumption. apply parse_start_beyond; assumption. Qed.
+(* a number above int64 max anywhere: the header is refused *)
+Theorem parse_range_big : forall sp size, 0 <= size <= int64_max -> spec_big sp = true ->
+  parse_range (print_header [sp]) size = None.
+Proof. intros sp size Hs H. rewrite parse_range_print by assumption. apply parse_big; assumption. Qed.
 
 (* no Range header: 200 with everything; HEAD: 200, no body *)
-Theorem no_range_full : forall d enc, full_200 d (process_range "" d enc) = true.
+Theorem no_range_full : forall d enc ct, full_200 d (process_range "" d enc ct) = true.
 Proof.
   intros. unfold process_range, full_200. cbn [str_empty r_status r_body r_cl r_cr N.eqb Pos.eqb andb].
   unfold body_eqb, oz_eqb, ocr_eqb. rewrite blob_eqb_refl, Z.eqb_refl. reflexivity.
 Qed.
-Theorem head_full : forall hdr d enc, head_ok d (write_response_content true hdr d enc) = true.
+Theorem head_full : forall hdr d enc ct, head_ok d (write_response_content true hdr d enc ct) = true.
 Proof.
   intros. unfold write_response_content, head_ok. cbn [r_status r_body r_cl N.eqb Pos.eqb andb].
   unfold body_eqb, oz_eqb. rewrite Z.eqb_refl. reflexivity.
@@ -360,112 +723,214 @@ Proof.
   destruct (accept_has_gzip ae) eqn:Ea; destruct (is_gzipped (st_data s)) eqn:Eg; simpl in H; try discriminate; auto.
 Qed.
 
-(* the whole GET, structured header *)
-Theorem get_partial : forall s ae sps,
-  blen (st_data s) <= int64_max -> blen (st_plain s) <= int64_max ->
-  (forall sp, In sp sps -> spec_small sp) ->
-  trig_gzip s ae = false ->
-  trig_specs sps (blen (fst (negotiate s ae))) = None ->
-  let fr := get_or_head false s ae (print_header sps) in
-  gzip_ok s ae (f_gzip fr) = true /\
-  spec_ok (representation s (f_gzip fr)) sps (f_resp fr) = true.
+(* the representation exists unless a corrupt stream has to be decompressed (k=7) *)
+Theorem corrupt_partial : forall s ae, trig_corrupt s ae = false ->
+  rep_ok s (snd (negotiate s ae)) = true.
 Proof.
-  intros s ae sps H1 H2 Hsm Hg Ht. unfold get_or_head.
-  pose proof (negotiate_representation s ae) as Hr.
-  pose proof (gzip_partial s ae Hg) as Hgz.
-  destruct (negotiate s ae) as [rep enc] eqn:En. simpl in *. subst rep.
-  split; [assumption|]. unfold write_response_content.
-  apply exact_partial; auto.
-  unfold representation. destruct enc; [assumption|].
+  intros s ae Ht. unfold negotiate, rep_ok, trig_corrupt in *.
+  destruct (st_flag s); [|reflexivity].
+  destruct (accept_has_gzip ae) eqn:Ea; destruct (is_gzipped (st_data s)) eqn:Eg; simpl in *; try reflexivity.
+  apply negb_false_iff in Ht. rewrite Ht. reflexivity.
+Qed.
+
+Lemma representation_len : forall s enc, blen (st_data s) <= int64_max -> blen (st_plain s) <= int64_max ->
+  blen (representation s enc) <= int64_max.
+Proof.
+  intros s enc H1 H2. unfold representation. destruct enc; [assumption|].
   destruct (st_flag s && is_gzipped (st_data s)); assumption.
 Qed.
 
+(* the whole GET, every spelling of a structured header *)
+Theorem get_partial : forall s ae its dl,
+  blen (st_data s) <= int64_max -> blen (st_plain s) <= int64_max -> items_ok its = true ->
+  trig_gzip s ae = false -> trig_corrupt s ae = false ->
+  let size := blen (fst (negotiate s ae)) in
+  mp_fits size (slen (mime_of s)) (ref_ranges (specs_of its) size) = true ->
+  trig_specs (specs_of its) size = None ->
+  let fr := get_or_head false dl s ae (render_header its) in
+  gzip_ok s ae (f_gzip fr) = true /\ rep_ok s (f_gzip fr) = true /\
+  spec_ok (representation s (f_gzip fr)) (specs_of its) (f_resp fr) = true.
+Proof.
+  intros s ae its dl H1 H2 Hok Hg Hc size Hfit Ht. unfold get_or_head. subst size.
+  pose proof (negotiate_representation s ae) as Hr.
+  pose proof (gzip_partial s ae Hg) as Hgz. pose proof (corrupt_partial s ae Hc) as Hco.
+  destruct (negotiate s ae) as [rep enc] eqn:En. simpl in *. subst rep.
+  split; [assumption|]. split; [assumption|]. unfold write_response_content.
+  apply exact_partial; auto. apply representation_len; assumption.
+Qed.
+
 (* the whole GET, any header text *)
-Theorem get_raw_partial : forall s ae hdr,
+Theorem get_raw_partial : forall s ae hdr dl,
   blen (st_data s) <= int64_max -> blen (st_plain s) <= int64_max ->
-  trig_gzip s ae = false ->
-  trig_parsed (parse_range hdr (blen (fst (negotiate s ae)))) (blen (fst (negotiate s ae))) = None ->
-  let fr := get_or_head false s ae hdr in
-  gzip_ok s ae (f_gzip fr) = true /\
+  trig_gzip s ae = false -> trig_corrupt s ae = false ->
+  let d := fst (negotiate s ae) in
+  mp_fits_hdr hdr d (mime_of s) = true ->
+  trig_parsed (parse_range hdr (blen d)) (blen d) = None ->
+  let fr := get_or_head false dl s ae hdr in
+  gzip_ok s ae (f_gzip fr) = true /\ rep_ok s (f_gzip fr) = true /\
   self_consistent (representation s (f_gzip fr)) (f_resp fr) = true.
 Proof.
-  intros s ae hdr H1 H2 Hg Ht. unfold get_or_head.
+  intros s ae hdr dl H1 H2 Hg Hc d Hfit Ht. unfold get_or_head. subst d.
   pose proof (negotiate_representation s ae) as Hr.
-  pose proof (gzip_partial s ae Hg) as Hgz.
+  pose proof (gzip_partial s ae Hg) as Hgz. pose proof (corrupt_partial s ae Hc) as Hco.
   destruct (negotiate s ae) as [rep enc] eqn:En. simpl in *. subst rep.
-  split; [assumption|]. unfold write_response_content.
-  apply raw_consistent_partial; auto.
-  unfold representation. destruct enc; [assumption|].
-  destruct (st_flag s && is_gzipped (st_data s)); assumption.
+  split; [assumption|]. split; [assumption|]. unfold write_response_content.
+  apply raw_consistent_partial; auto. apply representation_len; assumption.
 Qed.
+
+(* the headers every answer carries *)
+Theorem get_common_headers : forall head dl s ae hdr,
+  f_ar (get_or_head head dl s ae hdr) = true /\
+  f_cdisp (get_or_head head dl s ae hdr) = content_disposition (st_name s) dl.
+Proof. intros. unfold get_or_head. destruct (negotiate s ae). split; reflexivity. Qed.
 
 (* ------------------------------------------------------------------ *)
 (* refutations of the full statements: concrete witnesses (the known findings) *)
 Definition abcdef : blob := [97; 98; 99; 100; 101; 102]%N.
+Definition r_nothing : response := {| r_status := 200; r_ct := ""; r_cr := None; r_cl := None; r_body := Plain [] 0 |}.
 
 (* k=0: "Range: bytes=" — 200 with an empty body *)
 Theorem refuted_empty_list :
-  spec_ok abcdef [] (process_range (print_header []) abcdef false) = false /\
+  spec_ok abcdef [] (process_range (print_header []) abcdef false "") = false /\
   print_header [] = "bytes="%string /\
-  process_range "bytes=" abcdef false = {| r_status := 200; r_cr := None; r_cl := None; r_body := Plain [] 0 |}.
+  process_range "bytes=" abcdef false "" = r_nothing.
 Proof. vm_compute. auto. Qed.
 
 (* k=1: "Range: bytes=0-,0-" — the sum exceeds the size: 200 with an empty body *)
 Theorem refuted_oversize :
-  spec_ok abcdef [RFrom 0; RFrom 0] (process_range (print_header [RFrom 0; RFrom 0]) abcdef false) = false /\
-  process_range "bytes=0-,0-" abcdef false = {| r_status := 200; r_cr := None; r_cl := None; r_body := Plain [] 0 |}.
+  spec_ok abcdef [RFrom 0; RFrom 0] (process_range (print_header [RFrom 0; RFrom 0]) abcdef false "") = false /\
+  process_range "bytes=0-,0-" abcdef false "" = r_nothing.
 Proof. vm_compute. auto. Qed.
 
 (* k=2: "Range: bytes=6-" on 6 bytes — 206 with zero bytes and Content-Range "bytes 6-5/6" *)
 Theorem refuted_zero_length :
-  spec_ok abcdef [RFrom 6] (process_range (print_header [RFrom 6]) abcdef false) = false /\
-  process_range "bytes=6-" abcdef false =
-    {| r_status := 206; r_cr := Some (6, 5, 6); r_cl := Some 0; r_body := Plain [] 0 |}.
+  spec_ok abcdef [RFrom 6] (process_range (print_header [RFrom 6]) abcdef false "") = false /\
+  process_range "bytes=6-" abcdef false "" =
+    {| r_status := 206; r_ct := ""; r_cr := Some (6, 5, 6); r_cl := Some 0; r_body := Plain [] 0 |}.
 Proof. vm_compute. auto. Qed.
 
 (* k=3: "Range: bytes=--2" — a negative suffix length is accepted: 206, Content-Length -2,
    Content-Range "bytes 8-5/6" *)
 Theorem refuted_negative_suffix :
-  self_consistent abcdef (process_range "bytes=--2" abcdef false) = false /\
-  process_range "bytes=--2" abcdef false =
-    {| r_status := 206; r_cr := Some (8, 5, 6); r_cl := Some (-2); r_body := Plain [] 0 |}.
+  self_consistent abcdef (process_range "bytes=--2" abcdef false "") = false /\
+  process_range "bytes=--2" abcdef false "" =
+    {| r_status := 206; r_ct := ""; r_cr := Some (8, 5, 6); r_cl := Some (-2); r_body := Plain [] 0 |}.
+Proof. vm_compute. auto. Qed.
+
+(* k=3 inside a multi-range request: the int64 minimum as suffix length passes every check;
+   Content-Length is negative and nothing is sent *)
+Theorem refuted_negative_suffix_multi :
+  self_consistent abcdef (process_range "bytes=--9223372036854775808,0-0" abcdef false "") = false /\
+  process_range "bytes=--9223372036854775808,0-0" abcdef false "" =
+    {| r_status := 206; r_ct := "multipart/byteranges"; r_cr := None; r_cl := Some (-9223372036854775498);
+       r_body := Multipart "" [] 0 0 |} /\
+  process_range "bytes=--9223372036854775808,--9223372036854775808" abcdef false "" =
+    {| r_status := 206; r_ct := "multipart/byteranges"; r_cr := None; r_cl := Some 328;
+       r_body := Multipart "" [] 1 144 |}.
 Proof. vm_compute. auto. Qed.
 
 (* k=4: "Range: bytes=0-1,9-10" on 6 bytes — 416 although 0-1 is satisfiable *)
 Theorem refuted_mixed :
-  spec_ok abcdef [RClosed 0 1; RClosed 9 10] (process_range (print_header [RClosed 0 1; RClosed 9 10]) abcdef false) = false /\
-  r_status (process_range "bytes=0-1,9-10" abcdef false) = 416%N /\
+  spec_ok abcdef [RClosed 0 1; RClosed 9 10] (process_range (print_header [RClosed 0 1; RClosed 9 10]) abcdef false "") = false /\
+  r_status (process_range "bytes=0-1,9-10" abcdef false "") = 416%N /\
   ref_ranges [RClosed 0 1; RClosed 9 10] (blen abcdef) = [(0, 2)].
 Proof. vm_compute. auto. Qed.
 
 (* k=5: "Accept-Encoding: gzip;q=0" still gets Content-Encoding: gzip *)
+Definition gz_stub : stored :=
+  {| st_flag := true; st_data := [31; 139; 8; 0]%N; st_plain := []; st_gzok := true;
+     st_name := ""; st_mime := ""; st_extmime := "" |}.
 Theorem refuted_gzip_q0 :
-  let s := {| st_flag := true; st_data := [31; 139; 8; 0]%N; st_plain := [] |} in
-  snd (negotiate s "gzip;q=0") = true /\ gzip_ok s "gzip;q=0" (snd (negotiate s "gzip;q=0")) = false.
+  snd (negotiate gz_stub "gzip;q=0") = true /\ gzip_ok gz_stub "gzip;q=0" (snd (negotiate gz_stub "gzip;q=0")) = false.
+Proof. vm_compute. auto. Qed.
+
+(* k=6: "Range: bytes=0-9223372036854775808" on 6 bytes — 416 "invalid range" although the
+   RFC reads it as the whole blob; also the parser-level statement *)
+Theorem refuted_big_number :
+  spec_ok abcdef [RClosed 0 9223372036854775808]
+    (process_range (print_header [RClosed 0 9223372036854775808]) abcdef false "") = false /\
+  print_header [RClosed 0 9223372036854775808] = "bytes=0-9223372036854775808"%string /\
+  process_range "bytes=0-9223372036854775808" abcdef false "" = resp_416 3 /\
+  ref_ranges [RClosed 0 9223372036854775808] (blen abcdef) = [(0, 6)] /\
+  ref_spec (RClosed 0 9223372036854775808) 6 = Some (0, 6) /\
+  parse_spec64 (RClosed 0 9223372036854775808) 6 = None.
+Proof. vm_compute. repeat split; reflexivity. Qed.
+
+(* k=7: a blob flagged compressed with the gzip magic and a corrupt stream, client without
+   gzip: the decompression error is dropped and whatever came out (here nothing) is served as 200 *)
+Definition gz_corrupt : stored :=
+  {| st_flag := true; st_data := [31; 139; 0; 1; 2; 3]%N; st_plain := []; st_gzok := false;
+     st_name := ""; st_mime := ""; st_extmime := "" |}.
+Theorem refuted_corrupt :
+  rep_ok gz_corrupt (f_gzip (get_or_head false false gz_corrupt "" "")) = false /\
+  f_resp (get_or_head false false gz_corrupt "" "") =
+    {| r_status := 200; r_ct := ""; r_cr := None; r_cl := Some 0; r_body := Plain [] 0 |}.
 Proof. vm_compute. auto. Qed.
 
 (* the same inputs are inside the trigger sets *)
 Theorem witnesses_triggered :
   trig_specs [] 6 = Some 0%N /\ trig_specs [RFrom 0; RFrom 0] 6 = Some 1%N /\
   trig_specs [RFrom 6] 6 = Some 2%N /\ trig_parsed (parse_range "bytes=--2" 6) 6 = Some 3%N /\
+  trig_parsed (parse_range "bytes=--9223372036854775808,0-0" 6) 6 = Some 3%N /\
   trig_specs [RClosed 0 1; RClosed 9 10] 6 = Some 4%N /\
-  trig_gzip {| st_flag := true; st_data := [31; 139; 8; 0]%N; st_plain := [] |} "gzip;q=0" = true.
+  trig_gzip gz_stub "gzip;q=0" = true /\
+  trig_specs [RClosed 0 9223372036854775808] 6 = Some 6%N /\
+  trig_parse_specs [RClosed 0 9223372036854775808] 6 = Some 6%N /\
+  trig_corrupt gz_corrupt "" = true.
 Proof. vm_compute. repeat split. Qed.
 
-(* non-vacuity: a multi-range request outside every trigger, and what it returns *)
+(* the triggers are narrow: a multi-range request with a negative suffix that is answered 416
+   or the empty 200 is not labelled k=3 *)
+Theorem trigger3_narrow :
+  trig_parsed (parse_range "bytes=--2,0-1" 6) 6 = None /\
+  r_status (process_range "bytes=--2,0-1" abcdef false "") = 416%N /\
+  trig_parsed (parse_range "bytes=--2,0-,0-" 6) 6 = Some 1%N.
+Proof. vm_compute. auto. Qed.
+
+(* non-vacuity: a multi-range request outside every trigger, in a non-canonical spelling
+   (white space incl. U+00A0, '+', leading zeros, an empty element), and what it returns *)
+Definition nbsp : string := bs [194; 160]%nat.
+Definition example_items : list item :=
+  [IClosed [" "%string] {| nf_plus := true; nf_zeros := 2 |} 0 [nbsp] [] nf0 1 [];
+   IBlank [" "%string];
+   ISuffix [] [] {| nf_plus := false; nf_zeros := 1 |} 2 [nbsp; " "%string];
+   IClosed [] nf0 3 [] [] nf0 3 []].
 Example exact_example :
   let d := abcdef in
   let sps := [RClosed 0 1; RSuffix 2; RClosed 3 3] in
-  trig_specs sps (blen d) = None /\ print_header sps = "bytes=0-1,-2,3-3"%string /\
-  process_range (print_header sps) d false =
-    {| r_status := 206; r_cr := None; r_cl := Some 0;
-       r_body := Multipart [((0, 1, 6), [97; 98]%N); ((4, 5, 6), [101; 102]%N); ((3, 3, 6), [100]%N)] |}.
-Proof. vm_compute. auto. Qed.
+  specs_of example_items = sps /\ items_ok example_items = true /\
+  trig_specs sps (blen d) = None /\ mp_fits (blen d) 0 (ref_ranges sps (blen d)) = true /\
+  print_header sps = "bytes=0-1,-2,3-3"%string /\
+  render_header example_items = append "bytes= +000" (append nbsp (append "-1, ,-02" (append nbsp " ,3-3"))) /\
+  process_range (render_header example_items) d false "" =
+    {| r_status := 206; r_ct := "multipart/byteranges"; r_cr := None; r_cl := Some 407;
+       r_body := Multipart "" [((0, 1, 6), [97; 98]%N); ((4, 5, 6), [101; 102]%N); ((3, 3, 6), [100]%N)] 0 407 |}.
+Proof. vm_compute. repeat split; reflexivity. Qed.
+(* non-vacuity of the raw statements: a header no spelling covers (a negative number as
+   last-byte-pos next to a good range is refused; "bytes=1-2" with a trailing ";" too), and
+   a free-form one that is served *)
+Example raw_example :
+  let s := {| st_flag := false; st_data := abcdef; st_plain := abcdef; st_gzok := true;
+              st_name := "a.txt"; st_mime := "text/x-test"; st_extmime := "text/plain; charset=utf-8" |} in
+  let hdr := append "bytes=" (append nbsp " 1 - +02 ,,") in
+  trig_gzip s "" = false /\ trig_corrupt s "" = false /\
+  mp_fits_hdr hdr abcdef (mime_of s) = true /\
+  trig_parsed (parse_range hdr 6) 6 = None /\
+  get_or_head false true s "" hdr =
+    {| f_resp := {| r_status := 206; r_ct := "text/x-test"; r_cr := Some (1, 2, 6); r_cl := Some 2;
+                    r_body := Plain [98; 99]%N 0 |};
+       f_gzip := false; f_cdisp := "attachment; filename=""a.txt"""; f_ar := true |} /\
+  trig_parsed (parse_range "bytes=0-1,2--3" 6) 6 = None /\
+  process_range "bytes=0-1,2--3" abcdef false "" = resp_416 3.
+Proof. vm_compute. repeat split; reflexivity. Qed.
 Example gzip_example :
-  let s := {| st_flag := true; st_data := [31; 139; 8; 0; 9]%N; st_plain := [104; 105]%N |} in
+  let s := {| st_flag := true; st_data := [31; 139; 8; 0; 9]%N; st_plain := [104; 105]%N; st_gzok := true;
+              st_name := ""; st_mime := ""; st_extmime := "" |} in
   trig_gzip s "deflate, gzip;q=0.5" = false /\
-  get_or_head false s "deflate, gzip;q=0.5" "bytes=1-2" =
-    {| f_resp := {| r_status := 206; r_cr := Some (1, 2, 5); r_cl := Some 2; r_body := Plain [139; 8]%N 0 |}; f_gzip := true |} /\
-  get_or_head false s "identity" "bytes=1-2" =
-    {| f_resp := {| r_status := 206; r_cr := Some (1, 1, 2); r_cl := Some 1; r_body := Plain [105]%N 0 |}; f_gzip := false |}.
-Proof. vm_compute. auto. Qed.
+  f_resp (get_or_head false false s "deflate, gzip;q=0.5" "bytes=1-2") =
+    {| r_status := 206; r_ct := ""; r_cr := Some (1, 2, 5); r_cl := Some 2; r_body := Plain [139; 8]%N 0 |} /\
+  f_gzip (get_or_head false false s "deflate, gzip;q=0.5" "bytes=1-2") = true /\
+  f_resp (get_or_head false false s "identity" "bytes=1-2") =
+    {| r_status := 206; r_ct := ""; r_cr := Some (1, 1, 2); r_cl := Some 1; r_body := Plain [105]%N 0 |} /\
+  f_gzip (get_or_head false false s "identity" "bytes=1-2") = false.
+Proof. vm_compute. repeat split; reflexivity. Qed.
